@@ -1,6 +1,7 @@
 mod config;
 mod dec;
 mod gen;
+mod mcp;
 mod pack;
 mod util;
 
@@ -37,6 +38,14 @@ fn main() {
                 "chunk" => gen::gen_chunk(&mut run, seed, n, args.get("tier") == Some("thorough")),
                 _ => panic!("unknown family {fam}"),
             }
+            run.finish();
+        }
+        "mcp" => {
+            let mut run = Runner::new(&args);
+            if let Some(p) = args.get("in") {
+                mcp::replay(&mut run, p, args.num("seed", 1), args.num("conc", 2) as usize);
+            }
+            mcp::random(&mut run, args.num("seed", 1), args.num("n", 100));
             run.finish();
         }
         "config" => {
